@@ -217,6 +217,13 @@ def tensor_getattr(I, t: Tensor, name):
         return Builtin("ndarray.reshape", reshape)
     if name == "ravel":
         return Builtin("ndarray.ravel", lambda I_, a, k: reshaped_view(t, (t.size,)))
+    if name == "diagonal":
+        def diagonal(I_, a, k):
+            if a or k or t.ndim != 2:
+                raise Unsupported("ndarray.diagonal with an offset / of a non-matrix")
+            m = min(t.shape)
+            return Tensor.view(t, [i * t.shape[1] + i for i in range(m)], (m,))       # numpy: a (read-only) view
+        return Builtin("ndarray.diagonal", diagonal)
     if name == "astype":
         def astype(I_, a, k):
             dtype_kind, cast_tensor = _CAST
@@ -479,6 +486,15 @@ def make_numpy(extra=None):
             from ..values import broadcast_get, broadcast_shapes, iter_idx
             shp = broadcast_shapes(x.shape, y.shape)
             return Tensor(shp, [one(broadcast_get(x, shp, i_), broadcast_get(y, shp, i_)) for i_ in iter_idx(shp)], "bool")
+        # pointwise arrays: the comparison of the generic element
+        px, py = hasattr(x, "pw_map"), hasattr(y, "pw_map")
+        if px or py:
+            xr, yr = (x.rep if px else x), (y.rep if py else y)
+            if not (is_scalar(xr) and is_scalar(yr)):
+                raise Unsupported("np.isclose of a pointwise array with a non-scalar")
+            return (x if px else y).like(one(xr, yr))
+        if not (is_scalar(x) and is_scalar(y)):
+            raise Unsupported(f"np.isclose of {type(x).__name__} and {type(y).__name__}")
         return one(x, y)
     A["isclose"] = Builtin("np.isclose", isclose)
 
@@ -656,14 +672,6 @@ def make_numpy(extra=None):
         vals = sorted(set(t.data))
         return Tensor((len(vals),), vals, t.dtype)
     A["unique"] = Builtin("np.unique", unique)
-
-    def fill_diagonal(I, a, k):
-        t, v = a[0], a[1]
-        if not isinstance(t, Tensor) or t.ndim != 2:
-            raise Unsupported("fill_diagonal of a non 2-d fixed array")
-        for i in range(min(t.shape)):
-            t.set((i, i), v)
-    A["fill_diagonal"] = Builtin("np.fill_diagonal", fill_diagonal)
 
     A["sum"] = Builtin("np.sum", np_sum)
 
@@ -913,6 +921,19 @@ def make_numpy(extra=None):
             raise Unsupported("np.reshape of this form")
         return reshaped_view(t, shp)
     _set("reshape", reshape)
+
+    def fill_diagonal(I, a, k):
+        t = a[0]
+        if not isinstance(t, Tensor) or t.ndim != 2 or k.get("wrap", a[2] if len(a) > 2 else False) is not False or set(k) - {"val", "wrap"}:
+            raise Unsupported("np.fill_diagonal of this form")
+        val = k.get("val", a[1] if len(a) > 1 else None)
+        vals = list(val.data) if isinstance(val, Tensor) else (list(ops.iterate(I, val)) if isinstance(val, (list, tuple)) else [val])
+        if not vals:
+            raise PyExc("ValueError", ("cannot fill the diagonal from an empty value",))
+        for i in range(min(t.shape)):
+            t.set((i, i), ops.store_cast(t, vals[i % len(vals)]))          # in place, converted to the array's element type
+        return None
+    A["fill_diagonal"] = Builtin("np.fill_diagonal", fill_diagonal)
 
     if extra:
         A.update(extra)
